@@ -249,7 +249,8 @@ fn judge(report: &mut Report, s: &Scenario, base: &Trace, plan: &BTreeMap<u64, F
         let site = |k: u64| -> &'static str {
             if call.is_init {
                 if at_start(k) { "initial_point" } else { "step_size_search" }
-            } else if !is_first && revisit(k) {
+            } else if revisit(k) {
+                // (also in the first faulted call: an earlier fault of the same call may have ended the trajectory)
                 "research_current_point"
             } else if !is_first {
                 "after_earlier_fault"
@@ -271,7 +272,9 @@ fn judge(report: &mut Report, s: &Scenario, base: &Trace, plan: &BTreeMap<u64, F
                         let st = here.first().map(|(k, _)| site(*k)).unwrap_or("no_fault_in_call");
                         report.violation(sig(&format!("recoverable_fault_fails_set_position:{st}")), format!("faults {kind_tag}: set_position returned Err: {e}"), replay.clone());
                     }
-                } else if let Some((k, _)) = here.first() {
+                } else if let Some((k, _)) = here.iter().find(|(k, _)| *k + 1 == call.end).or(here.first()) {
+                    // the fault that made the call fail is the one at its last evaluation (an earlier fault of the same
+                    // call was absorbed)
                     report.violation(sig(&format!("recoverable_fault_returned_err:{}", site(*k))), format!("faults {kind_tag}: draw {} returned Err: {e}", ci - 1), replay.clone());
                 } else {
                     report.violation(sig("error_after_recovered_fault"), format!("faults {kind_tag}: draw {} returned Err although no fault was evaluated in it: {e}", ci - 1), replay.clone());
@@ -359,8 +362,11 @@ fn judge(report: &mut Report, s: &Scenario, base: &Trace, plan: &BTreeMap<u64, F
 fn scenarios(seed: u64, thorough: bool) -> Vec<Scenario> {
     let mut v = vec![];
     let mut rng = HRng::new(seed);
-    let dims_nuts: &[usize] = if thorough { &[1, 3, 10] } else { &[1, 3] };
-    let dims_mclmc: &[usize] = if thorough { &[2, 3, 10] } else { &[2, 3] };
+    let dims_nuts: &[usize] = if thorough { &[1, 3, 10, 17] } else { &[1, 3] };
+    let dims_mclmc: &[usize] = if thorough { &[2, 3, 10, 17] } else { &[2, 3] };
+    // the thorough tier repeats every scenario with six chain seeds and two warmup lengths
+    let reps: &[(u64, u64)] = if thorough { &[(0, 8), (1, 8), (2, 8), (3, 20), (4, 20), (5, 3)] } else { &[(0, 8)] };
+    for &(_rep, num_tune) in reps {
     for &preset in crate::chains::ALL_PRESETS.iter() {
         let kinds: &[&'static str] = if preset.is_nuts() { &["Euclidean", "ExactNormal"] } else { &["Microcanonical", "EuclideanEarlyThenMicrocanonical"] };
         for &kind in kinds {
@@ -375,20 +381,21 @@ fn scenarios(seed: u64, thorough: bool) -> Vec<Scenario> {
                         dim,
                         target: if dim % 2 == 1 { "iso" } else { "scaled" },
                         seed: rng.next_u64(),
-                        draws: if thorough { 30 } else { 12 },
-                        num_tune: 8,
+                        draws: if thorough { num_tune + 22 } else { 12 },
+                        num_tune,
                         dynamic,
                         variant: "default",
                     });
                     // rarely used options of the diagonal NUTS preset
                     if preset == Preset::DiagNuts && dim == 3 {
                         for variant in ["extra_doublings", "fixed_step", "draw_only_estimate"] {
-                            v.push(Scenario { preset, kind, dim, target: "iso", seed: rng.next_u64(), draws: if thorough { 30 } else { 12 }, num_tune: 8, dynamic, variant });
+                            v.push(Scenario { preset, kind, dim, target: "iso", seed: rng.next_u64(), draws: if thorough { num_tune + 22 } else { 12 }, num_tune, dynamic, variant });
                         }
                     }
                 }
             }
         }
+    }
     }
     v
 }
@@ -410,7 +417,7 @@ pub fn run(args: &Args, report: &mut Report) {
         return;
     }
     let scens = scenarios(args.seed ^ 0xC05, report.thorough());
-    let n_pairs = report.size(600, 12_000);
+    let n_pairs = report.size(600, 400_000);
     let seed = args.seed;
     // work items: (scenario, evaluation index chunk)
     let bases: Vec<Trace> = scens.iter().map(|s| run_scenario(s, &BTreeMap::new(), 10)).collect();
